@@ -154,20 +154,46 @@ def opFsReq (args : List SExp) : Option OpResult := do
         let c03 := (if canary then [("C03", "outside-root-touched")] else []) ++
           (if unmappable && !(400 ≤ resp.status && resp.status < 500) then [("C03", s!"unmappable-path-answered-{resp.status}")] else [])
         -- C03, second clause: every href a PROPFIND reports maps back to a resource of the tree
+        -- (pseudo entries `NUL tag: href` are the harness's mark for a member listed with another entity tag than GET announces)
+        let tagMark : Bytes := 0 :: "tag:".toUTF8.toList
+        let isTagMark (x : Bytes × Bool × Option Nat) : Bool := x.1.take tagMark.length == tagMark
         let c03 := c03 ++ (if r.method = "PROPFIND" && resp.status = 207 &&
-            !(resp.multi.all (fun x => match target x.1 with | some q => (lookup t q).isSome | none => false))
+            !((resp.multi.filter (fun x => !isTagMark x)).all (fun x => match target x.1 with | some q => (lookup t q).isSome | none => false))
           then [("C03", "reported-href-does-not-address-a-resource")] else [])
         let c13 := if resp.status ≥ 500 && !faulted r && !cancelled && !abstain then [("C13", s!"{r.method}-answered-{resp.status}")] else []
         -- C13: a Depth header that is none of the three values is refused with 4xx
         let badDepth := (r.method = "PROPFIND" || r.method = "COPY" || r.method = "MOVE") && !(["", "0", "1", "infinity"].contains r.depth)
         let c13 := c13 ++ (if badDepth && !(400 ≤ resp.status && resp.status < 500) then [("C13", s!"invalid-Depth-answered-{resp.status}")] else [])
         let conditional := (r.method = "PUT" || r.method = "DELETE") && (r.ifMatch != .unset || r.ifNoneMatch != .unset)
-        let c04 := if conditional && (!c01.isEmpty || !c02.isEmpty) then [("C04", s!"{r.method}-precondition-answered-{resp.status}")] else []
+        -- (a conditional PUT whose precondition HOLDS and whose body then breaks off over an existing file is the open
+        -- finding of C01/C02, not a precondition that was judged wrongly)
+        let c04 := if conditional && !faultRegion && (!c01.isEmpty || !c02.isEmpty) then [("C04", s!"{r.method}-precondition-answered-{resp.status}")] else []
+        -- C04: PROPFIND announces for every listed member the same tag GET, HEAD and PUT announce for it
+        let c04 := c04 ++ (if r.method = "PROPFIND" && resp.multi.any isTagMark then [("C04", "listed-tag-differs-from-the-one-GET-announces")] else [])
         -- C11: the WebDAV server's PROPFIND answers (status, one response per resource in scope, refusal of a body
         -- naming none of the three forms) are part of the same relation
         let c11 := if r.method = "PROPFIND" && !c01.isEmpty then [("C11", s!"webdav-PROPFIND-answered-{resp.status}")] else []
         c01 ++ c02 ++ c17 ++ c03 ++ c13 ++ c04 ++ c11
     pure ⟨impl, judge⟩
+  | _ => none
+
+/-- `fs.obs <scenario> <method> <path> <dest|-> ( depth- overwrite- ) => <status> <leak> <flag> <scope>`: requests against served
+    directories holding what the tree model cannot express (symbolic links of every kind, a root reached through a
+    link, a file outside the root at the host path a request path spells).  The model abstains (`?`); judged is what
+    C17 and C03 say of every response whatever the tree: no host path in it, nothing outside the root touched, and
+    (scenario `outer`) an answer that does not depend on what lies outside the root. -/
+def opFsObs (args : List SExp) : Option OpResult := do
+  match args with
+  | [.atom scen, .atom m, _, _, _] =>
+    let judge : String → List (String × String) := fun got =>
+      match got.splitOn " " with
+      | [st, leak, flag, scope] =>
+        (if leak = "1" then [("C17", s!"host-path-in-{m}-{st}-response-on-a-tree-with-links")] else []) ++
+        (if flag = "1" then [("C03", if scen = "outer" then "answer-depends-on-a-file-outside-the-root" else "outside-root-touched")] else []) ++
+        -- a Depth 1 / infinity listing of a directory names the directory and each entry in scope exactly once
+        (if scope = "1" then [("C11", "listing-misses-or-repeats-an-entry-on-a-tree-with-links"), ("C01", "PROPFIND-listing-on-a-tree-with-links")] else [])
+      | _ => [("C17", "unreadable-answer"), ("C03", "unreadable-answer")]
+    pure ⟨"?", judge⟩
   | _ => none
 
 end Driver
